@@ -86,7 +86,8 @@ func init() {
 	Theory["be32v"] = TheoryFn{SMT: "be32v", HeapArg: "byte", Ret: "Int", RetT: typInt}
 	Theory["p256c"] = TheoryFn{SMT: "p256c", Ret: "Iface"}
 	Theory["s256c"] = TheoryFn{SMT: "s256c", Ret: "Iface"}
-	for _, f := range []string{"curveN", "curveP", "curveBits", "bitlen", "pubX", "pubY", "hkdfSha256"} {
+	Theory["s256p"] = TheoryFn{SMT: "s256p", Ret: "Ptr"}
+	for _, f := range []string{"curveN", "curveP", "curveBits", "bitlen", "pubX", "pubY", "hkdfSha256", "hkdfNat"} {
 		Theory[f] = TheoryFn{SMT: f, Ret: "Int", RetT: typInt}
 	}
 	for _, f := range []string{"ecdsaEq", "ecdsaSigOf", "onCurve", "compressedOK"} {
@@ -374,14 +375,14 @@ func ecdsaTheory(hs string) string {
 		// assumed (arithmetic of positional notation): the big-endian value of a string is unchanged by left-padding with zero bytes
 		b.WriteString("(assert (forall ((a (Array Int Int)) (oa Int) (b (Array Int Int)) (ob Int) (n Int)) (! (=> (and (<= 0 n) (<= n 32) (forall ((q Int)) (! (=> (and (<= oa q) (< q (+ oa (- 32 n)))) (= (select a q) 0)) :pattern ((select a q)))) (forall ((q Int)) (! (=> (and (<= ob q) (< q (+ ob n))) (= (select b q) (select a (+ (- q ob) (+ oa (- 32 n)))))) :pattern ((select b q))))) (= (be32A a oa) (ite (= n 0) 0 (ite (= n 32) (be32A b ob) (benatA b ob n))))) :pattern ((be32A a oa) (benatA b ob n)))))\n")
 	}
-	b.WriteString("(declare-const p256c Iface)\n(declare-const s256c Iface)\n(assert (not (= p256c s256c)))\n(assert (and (not (= (if.dyn p256c) 0)) (not (= (if.dyn s256c) 0))))\n")
+	b.WriteString("(declare-const p256c Iface)\n(declare-const s256c Iface)\n(declare-const s256p Ptr)\n(assert (not (= (p.obj s256p) 0)))\n(assert (not (= p256c s256c)))\n(assert (and (not (= (if.dyn p256c) 0)) (not (= (if.dyn s256c) 0))))\n")
 	b.WriteString("(declare-fun curveN (Iface) Int)\n(declare-fun curveP (Iface) Int)\n(declare-fun curveBits (Iface) Int)\n(declare-fun bitlen (Int) Int)\n")
 	fmt.Fprintf(&b, "(assert (and (= (curveN p256c) %s) (= (curveP p256c) %s) (= (curveBits p256c) 256)))\n", nP256, pP256)
 	fmt.Fprintf(&b, "(assert (and (= (curveN s256c) %s) (= (curveP s256c) %s) (= (curveBits s256c) 256)))\n", nS256, pS256)
 	fmt.Fprintf(&b, "(assert (forall ((v Int)) (! (=> (and (<= %s v) (< v %s)) (= (bitlen v) 256)) :pattern ((bitlen v)))))\n", pow2(255).String(), pow2(256).String())
 	b.WriteString("(declare-fun ecdsaEq (Iface Int Int Int Int Int) Bool)\n(declare-fun ecdsaSigOf (Iface Int Int Int Int) Bool)\n")
 	b.WriteString("(declare-fun pubX (Iface Int) Int)\n(declare-fun pubY (Iface Int) Int)\n(declare-fun onCurve (Iface Int Int) Bool)\n(declare-fun compressedOK (Iface Int Int) Bool)\n")
-	b.WriteString("(declare-fun hkdfSha256 (Int Int Int Int) Int)\n")
+	b.WriteString("(declare-fun hkdfSha256 (Int Int Int Int) Int)\n(declare-fun hkdfNat (Int Int Int Int) Int)\n")
 	// the public point of a scalar in [1, n-1] is a point of the curve with coordinates below p
 	b.WriteString("(assert (forall ((c Iface) (d Int)) (! (=> (and (<= 1 d) (< d (curveN c))) (and (onCurve c (pubX c d) (pubY c d)) (<= 0 (pubX c d)) (< (pubX c d) (curveP c)) (<= 0 (pubY c d)) (< (pubY c d) (curveP c)))) :pattern ((pubX c d)))))\n")
 	return b.String()
